@@ -165,6 +165,8 @@ func c12ErrClass(err error) string {
 		return "noscript"
 	case strings.Contains(err.Error(), "not an integer"):
 		return "notint"
+	case strings.HasPrefix(err.Error(), "ERR wrong number of arguments"):
+		return "arity"
 	}
 	return "other:" + err.Error()
 }
@@ -277,6 +279,54 @@ func anys(ss []string) []any {
 	}
 	return out
 }
+
+// c12Shaped builds the trailing `...any` arguments of a variadic method (LPush RPush SAdd SRem ZRem PFAdd Eval
+// EvalSha) from the elements and the argument shape that the specification names (RedisKV.tla, "argument
+// shapes"): every element an argument of its own, or ONE argument holding them all - a []string, a []any or a
+// single-entry map.  An unknown shape is a harness problem.
+func c12Shaped(els []any, sh string) ([]any, error) {
+	text := func(e any) string {
+		if f, ok := e.(float64); ok {
+			return fmt.Sprint(int64(f))
+		}
+		return kit.Str(e)
+	}
+	plain := make([]any, 0, len(els))
+	for _, e := range els {
+		if f, ok := e.(float64); ok {
+			plain = append(plain, int64(f)) // the model's integers are Go integers
+		} else {
+			plain = append(plain, e)
+		}
+	}
+	switch sh {
+	case "", "flat":
+		if len(plain) == 0 {
+			return nil, nil
+		}
+		return plain, nil
+	case "strs":
+		ss := make([]string, 0, len(els))
+		for _, e := range els {
+			ss = append(ss, text(e))
+		}
+		return []any{ss}, nil
+	case "anys":
+		return []any{plain}, nil
+	case "smap", "amap":
+		if len(els) != 2 {
+			return nil, fmt.Errorf("verif: shape %s with %d elements", sh, len(els))
+		}
+		if sh == "smap" {
+			return []any{map[string]string{text(els[0]): text(els[1])}}, nil
+		}
+		return []any{map[string]any{text(els[0]): plain[1]}}, nil
+	}
+	return nil, fmt.Errorf("verif: unknown argument shape %q", sh)
+}
+
+// c12Variadic: the variadic ops of the model and the field that holds their elements
+var c12Variadic = map[string]string{"lpush": "vs", "rpush": "vs", "sadd": "ms", "srem": "ms", "zrem": "ms", "pfadd": "es"}
 
 // opsNoValue: the wrapper method returns only an error
 var c12NoValue = map[string]bool{"set": true, "setex": true, "hset": true, "hmset": true, "expire": true,
@@ -406,6 +456,14 @@ func (x *c12Run) exec(c kit.M, uc bool) (any, error) {
 	start, stop := int64(kit.Num(c["start"])), int64(kit.Num(c["stop"]))
 	lo, hi := int64(kit.Num(c["lo"])), int64(kit.Num(c["hi"]))
 	page, size := kit.Num(c["page"]), kit.Num(c["size"])
+	// the trailing arguments of the variadic (...any) methods, in the shape the specification asks for
+	var va []any
+	if fld, ok := c12Variadic[op]; ok {
+		var err error
+		if va, err = c12Shaped(kit.List(c[fld]), kit.Str(c["sh"])); err != nil {
+			return nil, err
+		}
+	}
 	switch op {
 	// ------------------------------------------------------------ strings
 	case "get":
@@ -501,11 +559,9 @@ func (x *c12Run) exec(c kit.M, uc bool) (any, error) {
 		return pick(uc, func() (int, error) { return a.HIncrBy(k, f, n) }, func() (int, error) { return a.HIncrByCtx(ctx, k, f, n) })
 	// ------------------------------------------------------------ lists
 	case "lpush":
-		vs := kit.List(c["vs"])
-		return pick(uc, func() (int, error) { return a.LPush(k, vs...) }, func() (int, error) { return a.LPushCtx(ctx, k, vs...) })
+		return pick(uc, func() (int, error) { return a.LPush(k, va...) }, func() (int, error) { return a.LPushCtx(ctx, k, va...) })
 	case "rpush":
-		vs := kit.List(c["vs"])
-		return pick(uc, func() (int, error) { return a.RPush(k, vs...) }, func() (int, error) { return a.RPushCtx(ctx, k, vs...) })
+		return pick(uc, func() (int, error) { return a.RPush(k, va...) }, func() (int, error) { return a.RPushCtx(ctx, k, va...) })
 	case "lpop":
 		return pick(uc, func() (string, error) { return a.LPop(k) }, func() (string, error) { return a.LPopCtx(ctx, k) })
 	case "rpop":
@@ -525,11 +581,9 @@ func (x *c12Run) exec(c kit.M, uc bool) (any, error) {
 		return pickE(uc, func() error { return a.LTrim(k, start, stop) }, func() error { return a.LTrimCtx(ctx, k, start, stop) })
 	// ------------------------------------------------------------ sets
 	case "sadd":
-		ms := kit.List(c["ms"])
-		return pick(uc, func() (int, error) { return a.SAdd(k, ms...) }, func() (int, error) { return a.SAddCtx(ctx, k, ms...) })
+		return pick(uc, func() (int, error) { return a.SAdd(k, va...) }, func() (int, error) { return a.SAddCtx(ctx, k, va...) })
 	case "srem":
-		ms := kit.List(c["ms"])
-		return pick(uc, func() (int, error) { return a.SRem(k, ms...) }, func() (int, error) { return a.SRemCtx(ctx, k, ms...) })
+		return pick(uc, func() (int, error) { return a.SRem(k, va...) }, func() (int, error) { return a.SRemCtx(ctx, k, va...) })
 	case "scard":
 		return pick(uc, func() (int64, error) { return a.SCard(k) }, func() (int64, error) { return a.SCardCtx(ctx, k) })
 	case "sismember":
@@ -582,8 +636,7 @@ func (x *c12Run) exec(c kit.M, uc bool) (any, error) {
 	case "zcount":
 		return pick(uc, func() (int, error) { return a.ZCount(k, lo, hi) }, func() (int, error) { return a.ZCountCtx(ctx, k, lo, hi) })
 	case "zrem":
-		ms := kit.List(c["ms"])
-		return pick(uc, func() (int, error) { return a.ZRem(k, ms...) }, func() (int, error) { return a.ZRemCtx(ctx, k, ms...) })
+		return pick(uc, func() (int, error) { return a.ZRem(k, va...) }, func() (int, error) { return a.ZRemCtx(ctx, k, va...) })
 	case "zrange":
 		r, err := pick(uc, func() ([]string, error) { return a.ZRange(k, start, stop) }, func() ([]string, error) { return a.ZRangeCtx(ctx, k, start, stop) })
 		return anys(r.([]string)), err
@@ -643,8 +696,7 @@ func (x *c12Run) exec(c kit.M, uc bool) (any, error) {
 		return pick(uc, fns[0], fns[1])
 	// ------------------------------------------------------------ HyperLogLog
 	case "pfadd":
-		es := kit.List(c["es"])
-		return pick(uc, func() (bool, error) { return a.PFAdd(k, es...) }, func() (bool, error) { return a.PFAddCtx(ctx, k, es...) })
+		return pick(uc, func() (bool, error) { return a.PFAdd(k, va...) }, func() (bool, error) { return a.PFAddCtx(ctx, k, va...) })
 	case "pfcount":
 		return pick(uc, func() (int64, error) { return a.PFCount(k) }, func() (int64, error) { return a.PFCountCtx(ctx, k) })
 	case "pfmerge":
@@ -652,12 +704,20 @@ func (x *c12Run) exec(c kit.M, uc bool) (any, error) {
 		return pickE(uc, func() error { return x.t.rds.PFMerge(dst, kk...) }, func() error { return x.t.rds.PFMergeCtx(ctx, dst, kk...) })
 	// ------------------------------------------------------------ scripts
 	case "eval", "evalsha":
-		var args []any
+		// ARGV: what the script reads, then c.extra elements that it does not read; handed over in the shape c.sh
+		var argv []any
 		switch kit.Str(c["s"]) {
 		case "sset":
-			args = []any{v}
+			argv = []any{v}
 		case "sincr":
-			args = []any{n}
+			argv = []any{float64(n)}
+		}
+		for i := 0; i < kit.Num(c["extra"]); i++ {
+			argv = append(argv, "pad")
+		}
+		args, err := c12Shaped(argv, kit.Str(c["sh"]))
+		if err != nil {
+			return nil, err
 		}
 		x.t.scripts = true
 		if op == "eval" {
@@ -995,9 +1055,20 @@ func runC12Case(c kit.Case, targets []*c12Target, seed int64, rep *kit.Reporter,
 			if err != nil && strings.HasPrefix(err.Error(), "verif:") {
 				return kit.Verdict{Case: c.Index, Infra: true, Msg: err.Error()}
 			}
+			// the shape in which a variadic method was handed its arguments is part of the failure class
+			shape := ""
+			if sh := kit.Str(cmd["sh"]); sh != "" {
+				rep.Count(t.name+"."+op+".shape."+sh, 1)
+				if sh != "flat" {
+					shape = ":args-as-" + sh
+				}
+				if fld, ok := c12Variadic[op]; (ok && len(kit.List(cmd[fld])) == 0) || (!ok && kit.Str(cmd["s"]) == "sget" && kit.Num(cmd["extra"]) == 0) {
+					rep.Count(t.name+"."+op+".shape."+sh+".empty", 1)
+				}
+			}
 			where := fmt.Sprintf("%s[%s form] step %d %s", t.name, form, i, kit.Canon(cmd))
 			if g, w := c12ErrClass(err), kit.Str(want["err"]); g != w {
-				return fail(i, fmt.Sprintf("C12:%s:%s:err", tKind(t), op),
+				return fail(i, fmt.Sprintf("C12:%s:%s:err%s", tKind(t), op, shape),
 					fmt.Sprintf("%s: error %q, specification %q; last commands %s", where, g, w, strings.Join(trail, " ")))
 			}
 			if err != nil {
@@ -1027,7 +1098,7 @@ func runC12Case(c kit.Case, targets []*c12Target, seed int64, rep *kit.Reporter,
 				continue
 			}
 			if g != w {
-				return fail(i, fmt.Sprintf("C12:%s:%s:reply", tKind(t), op),
+				return fail(i, fmt.Sprintf("C12:%s:%s:reply%s", tKind(t), op, shape),
 					fmt.Sprintf("%s: reply %s, specification %s; last commands %s", where, g, w, strings.Join(trail, " ")))
 			}
 		}
